@@ -7,7 +7,8 @@ answer of IV.CleanState (Drivers/C10.lean; the protocol handler IV/Model/CleanPr
 Case kinds: `clean` (fresh Cleaner + one clean_content), `write` (DatasourceProvider.write), `hist` (several
 calls on one Cleaner with lines on which one obfuscator finds several NEW items at once, so the numbering
 hostN / 10.230.230.N depends on the order the items of a line are taken; the whole history is repeated in fresh
-Cleaners built from the SAME config / rm_conf / allow-list / content objects), `glue` (real filterable specs:
+Cleaners built from the SAME config / rm_conf / allow-list / content objects; since round 10 every round ends with
+generate_report and the reports - flags, facts lists, CSV files - are part of the compared answer), `glue` (real filterable specs:
 RegistryPoint + simple_file / glob_file / simple_command, filters registered with add_filter(max_match=1..3),
 collected twice in one process through TextFileProvider / CommandOutputProvider .write), `echo` (content c is
 cleaned, substitutes taken from that cleaning are put into c' = c + lines / tokens carrying them below, above and on
@@ -96,9 +97,13 @@ def write_result(p, dst, cmd=False):
     return {"write": res, "stored": text}
 
 
-def run_hist(case):
-    """several calls on one Cleaner, the whole history `rounds` times in fresh Cleaners built from the SAME objects"""
+def run_hist(case, tmp=None):
+    """several calls on one Cleaner, the whole history `rounds` times in fresh Cleaners built from the SAME objects;
+    every round ends with generate_report (facts file + CSV files, canonicalised by c09.take_report which also holds them
+    to mapping())"""
     cfg = case["cfg"]
+    c09.CURRENT_REAL_NAME[0] = cfg["fqdn"]
+    rep_fails = []
     conf, rm = mk_conf(cfg), mk_rm(cfg)
     allow = dict((name, dict((k, v) for k, v in items)) for name, items in case["allowlists"].items())
     contents = [list(c["lines"]) for c in case["calls"]]
@@ -122,9 +127,25 @@ def run_hist(case):
             d = diff_names(before, state())
             if d and len(mutated) < 4:
                 mutated.append("round %d call %d changed the caller's %s" % (r, i, ", ".join(d)))
-        rounds.append({"outs": outs, "maps": maps})
-    rep = ["round %d gives %r" % (r, rounds[r]["outs"]) for r in range(1, len(rounds)) if rounds[r] != rounds[0]]
-    return {"outs": rounds[0]["outs"], "maps": rounds[0]["maps"], "repeat": rep[:2], "mutated": mutated}
+        report = None
+        if tmp is not None:
+            rtmp = tempfile.mkdtemp(prefix="hist_rep_", dir=tmp)
+            try:
+                cl.rhsm_facts_file = os.path.join(rtmp, "facts.json")
+                prev = {}
+                report = c09.take_report(cl, cfg, rtmp, "arch", lambda desc, kind, m, finding=None: rep_fails.append(
+                    "round %d: %s" % (r, desc)), prev)
+                report = json.loads(json.dumps(report))
+            finally:
+                shutil.rmtree(rtmp, ignore_errors=True)
+            d = diff_names(before, state())
+            if d and len(mutated) < 4:
+                mutated.append("round %d generate_report changed the caller's %s" % (r, ", ".join(d)))
+        rounds.append({"outs": outs, "maps": maps, "report": report})
+    rep = ["round %d gives %r" % (r, rounds[r]["outs"] if rounds[r]["outs"] != rounds[0]["outs"] else rounds[r]["report"])
+           for r in range(1, len(rounds)) if rounds[r] != rounds[0]]
+    return {"outs": rounds[0]["outs"], "maps": rounds[0]["maps"], "report": rounds[0]["report"], "report_fails": rep_fails[:3],
+            "repeat": rep[:2], "mutated": mutated}
 
 
 def run_glue(case, tmp):
@@ -494,7 +515,7 @@ def run_case(case, tmp, pristine=None):
     if case["kind"] == "file":
         return run_file(case, tmp)
     if case["kind"] == "hist":
-        return run_hist(case)
+        return run_hist(case, tmp)
     if case["kind"] == "glue":
         return run_glue(case, tmp)
     cl = c09.mk_cleaner(case["cfg"])
@@ -783,6 +804,7 @@ def model_lines(case):
             ls.append(c09.clean_line({"lines": c["lines"], "no_obfuscate": c["no_obfuscate"], "no_redact": c["no_redact"],
                                       "allowlist": al}))
             ls.append("map")
+        ls.append("report")
         return ls
     if kind == "glue":
         alls = [l for f in case["files"] for l in f["lines"]]
@@ -841,7 +863,8 @@ def model_result(case, ans):
         return model_write(ans[2])
     if kind == "hist":
         n = len(case["calls"])
-        return {"outs": [c09.model_out(ans[2 + 2 * j]) for j in range(n)], "maps": [model_maps(ans[3 + 2 * j]) for j in range(n)]}
+        return {"outs": [c09.model_out(ans[2 + 2 * j]) for j in range(n)], "maps": [model_maps(ans[3 + 2 * j]) for j in range(n)],
+                "report": json.loads(json.dumps(c09.model_report(ans[2 + 2 * n])))}
     n = len(case["files"])
     return {"stored": [model_write(ans[2 + j]) for j in range(n)], "maps": model_maps(ans[2 + n])}
 
@@ -857,7 +880,7 @@ def tie_view(case, res):
     if kind == "entry":
         return {"write": res["write"], "stored": res["stored"]}
     if kind == "hist":
-        return {"outs": res["outs"], "maps": res["maps"]}
+        return {"outs": res["outs"], "maps": res["maps"], "report": res.get("report")}
     if kind == "glue":
         return {"stored": res["stored"], "maps": res["maps"]}
     return res
@@ -979,6 +1002,8 @@ def order_violation(case, res):
         if res["repeat"]:
             return "the same cleaning repeated in a fresh Cleaner differs from the first: " + res["repeat"][0]
     if kind == "hist":
+        if res.get("report_fails"):
+            return "the report does not say what mapping() says: " + res["report_fails"][0]
         for c, out in zip(case["calls"], res["outs"]):
             if out and out[0].startswith("<exception"):
                 continue
@@ -1254,7 +1279,9 @@ def run(chk):
                 "from per-case pools (host names of the system's domain incl. suffix/prefix pairs db.D / www.db.D / a.www.db.D / xdb.D, "
                 "IPv4, IPv6, MAC, up to 5 keywords) so that several are NEW at once and numbering depends on the order they are taken; "
                 "outputs AND all mappings after every call are compared; the history is repeated 2-3 times in fresh Cleaners built from "
-                "the same config, rm_conf, allow-list dict (budgets 1-3) and content list objects. glue (15%): RegistryPoint(filterable) "
+                "the same config, rm_conf, allow-list dict (budgets 1-3) and content list objects; every round ends with "
+                "generate_report(): flags, system name, facts lists and the five CSV files (keyword rows sorted) are compared across "
+                "seeds, across the repetitions and with the model's report answer, and held to mapping() by C09's report oracle. glue (15%): RegistryPoint(filterable) "
                 "+ simple_file / glob_file (2-3 files) / simple_command; in 60% 2-4 patterns compete for the lines with budgets 1-2; "
                 "filters through add_filter on the registry point, on a parser of it or on the implementation, as str / list / set, "
                 "re-registration with a larger budget; collected twice in "
@@ -1266,7 +1293,8 @@ def run(chk):
         "the `grep -F` pre-filter of the glue path is stated by the harness (lines containing a pattern), its tie is C07's",
         "the order of the filters dict a provider hands to clean_content is stated by the harness from core/filters.py "
         "(registration order, set arguments sorted, implementation before registry point) and checked by the comparison",
-        "Keyword.mapping() is read from a set: compared sorted",
+        "Keyword.mapping() is read from a set: compared sorted; so are the rows of the keyword CSV report and the keyword list of "
+        "the facts file (their order depends on the hash seed in the unchanged code)",
         "clean_content(text) with one string treats the whole text as ONE line (a pattern or the allow list drops or keeps it as "
         "a whole; numbering follows the order items are met in the whole text; the separator part of a password pattern may "
         "reach the first word of the next line): for it the property is stated as such - line breaks preserved, every output "
